@@ -19,7 +19,7 @@ open Muscle Muscle.Eng.SrvEngine
 
 /-! ## the specification reads only the `core` of the session record -/
 
-theorem matches_core {s t : Sess} (h : s.core = t.core) (sv : Server) (p : Bytes) (d : Option Nat) :
+theorem matches_core {s t : Sess} (h : s.vcore = t.vcore) (sv : Server) (p : Bytes) (d : Option Nat) :
     Matches sv s p d ↔ Matches sv t p d := by
   have h1 : s.subs = t.subs := by have := congrArg Sess.subs h; exact this
   have h2 : s.sid = t.sid := by have := congrArg Sess.sid h; exact this
@@ -27,13 +27,13 @@ theorem matches_core {s t : Sess} (h : s.core = t.core) (sv : Server) (p : Bytes
   unfold Matches visible wants
   rw [h1, h2, h3]
 
-theorem mirrorOK_core {s t : Sess} (h : s.core = t.core) (sv : Server) (m : Mirror) : MirrorOK sv s m ↔ MirrorOK sv t m := by
+theorem mirrorOK_core {s t : Sess} (h : s.vcore = t.vcore) (sv : Server) (m : Mirror) : MirrorOK sv s m ↔ MirrorOK sv t m := by
   unfold MirrorOK
   constructor
   · intro hm p d; rw [← matches_core h]; exact hm p d
   · intro hm p d; rw [matches_core h]; exact hm p d
 
-theorem sync_core {s t : Sess} (h : s.core = t.core) {sid : Nat} {a b : Server} {m : Mirror} {evs : List Ev}
+theorem sync_core {s t : Sess} (h : s.vcore = t.vcore) {sid : Nat} {a b : Server} {m : Mirror} {evs : List Ev}
     (hs : Sync sid s a b m evs) : Sync sid t a b m evs :=
   ⟨hs.1, fun hm => (mirrorOK_core h b _).1 (hs.2 ((mirrorOK_core h a m).2 hm))⟩
 
